@@ -783,6 +783,18 @@ class Gen:
             return None
         if not runner.records and self.opts.get("multi_ce") and self.p(self.opts["multi_ce"]):
             self.prefix = self.multi_ce_prefix(v)
+            if self.p(0.4):
+                self.chain_at = int(self.rng.integers(len(self.prefix) + 2, len(self.prefix) + 6))
+        elif getattr(self, "chain_at", None) is not None and len(runner.records) >= self.chain_at and len(v["w"].ces) >= 2:
+            # a chain of merges: a handle merged alone, merged again, then absorbed into the container of another
+            # composite - afterwards the oldest handles (which the following steps prefer) must still see everything
+            self.chain_at = None
+            w = v["w"]
+            n = len(w.ces)
+            a, b = str(w.ces[0]), str(w.ces[1])
+            self.prefix = [{"k": "composite", "name": f"CE{n}", "args": [a]},
+                           {"k": "composite", "name": f"CE{n + 1}", "args": [f"CE{n}"]},
+                           {"k": "composite", "name": f"CE{n + 2}", "args": [b, f"CE{n + 1}"]}]
         elif not runner.records and self.opts.get("lifecycle") and self.p(self.opts["lifecycle"]):
             self.prefix = self.lifecycle_prefix(v)
         if getattr(self, "prefix", None):
